@@ -4,7 +4,7 @@
     [no_overflow ops]: every operand is a usize and (number of operations + bytes
     they move) < 2^63 — the guard under which the code's unchecked arithmetic is
     exact (src/alloc.rs:98 "does not check for overflow and assumes it will not happen"). *)
-From DivanV Require Import Base.Res Model.Tally Proofs.Tally.
+From DivanV Require Import Base.Res Model.Tally Proofs.Tally Proofs.TallyWrap.
 Local Open Scope Z_scope.
 
 (** Every row (grow, shrink, alloc, dealloc) holds exactly the number of such
@@ -73,6 +73,45 @@ Theorem C10_build_independent : forall ops,
   no_overflow ops = true -> run true ops = run false ops /\ is_ok (run true ops) = true.
 Proof. exact run_build_independent. Qed.
 Print Assumptions C10_build_independent.
+
+(** Outside the guard, release build (no overflow checks), EVERY sequence of
+    usize operands: no panic; each row holds the exact count modulo 2^64 and
+    the byte sum modulo 2^64, where a reallocation contributes [op_bytes_m]:
+    |new - old| as long as that is at most 2^63 (always the case for requests
+    within [Layout]'s size <= isize::MAX: then the sum is the exact byte sum
+    mod 2^64), and 2^64 - |new - old| beyond (Proofs/TallyWrap.v,
+    [release_big_realloc_refutes_exact_sum]: growing 2 -> 2^64-1 is recorded as
+    a 3-byte grow).  The current figures are the two's-complement wrap of the
+    exact signed balances.  The max figures are the exact peaks provided the
+    corresponding balance stays in the i64 range after every prefix (restricted
+    half: once a balance has wrapped the recorded maximum can be below the true
+    peak, [release_max_needs_range]). *)
+Theorem C10_release_exact_mod : forall ops,
+  forallb op_wf ops = true ->
+  exists i, run false ops = Ok i /\
+    (forall k, t_count (get_tally i k) = (spec_count k ops mod two64N)%N /\
+               t_size (get_tally i k) = (spec_bytes_m k ops mod two64N)%N) /\
+    (forallb realloc_small ops = true -> forall k, spec_bytes_m k ops = spec_bytes k ops) /\
+    i_cur_count i = wrap_i64 (live_count ops) /\
+    i_cur_size i = wrap_i64 (live_size ops) /\
+    ((forall n, in_i64 (live_count (firstn n ops)) = true) -> i_max_count i = peak delta_count ops) /\
+    ((forall n, in_i64 (live_size (firstn n ops)) = true) -> i_max_size i = peak delta_size ops).
+Proof. exact release_exact_mod. Qed.
+Print Assumptions C10_release_exact_mod.
+
+(** The boolean specification evaluated on release-build outputs outside the
+    guard, and that the release model satisfies it for every sequence. *)
+Theorem C10_release_sb_meaning : forall ops i,
+  release_sb ops (Ok i) = true <->
+  (forallb op_wf ops = true ->
+   (forall k, get_tally i k = mtally k ops) /\
+   i_cur_count i = wrap_i64 (live_count ops) /\ i_cur_size i = wrap_i64 (live_size ops)).
+Proof. exact release_sb_meaning. Qed.
+Print Assumptions C10_release_sb_meaning.
+
+Theorem C10_release_model_sb : forall ops, release_sb ops (run false ops) = true.
+Proof. exact release_model_sb. Qed.
+Print Assumptions C10_release_model_sb.
 
 (** The boolean specification evaluated on the implementation's outputs says
     "inside the guard: no panic, and all twelve figures are the specified
